@@ -2,7 +2,7 @@
    as translated from the current Rust source (GenImp.ctx_program, regenerated on every run). Statements only; see
    Props/C05T.v for the status of such theorems. *)
 From Coq Require Import String List Bool.
-Require Import SV.Model.Imp SV.Model.GenImp SV.Model.GenImpMacro SV.Facts.ImpFacts SV.Facts.TypesRefine SV.Facts.MacroRefine SV.Facts.LegRefine.
+Require Import SV.Model.Imp SV.Model.GenImp SV.Model.GenImpLeg SV.Facts.ImpFacts SV.Facts.TypesRefine SV.Facts.MacroRefine SV.Facts.LegRefine.
 Import ListNotations.
 Open Scope string_scope.
 Open Scope list_scope.
